@@ -86,6 +86,46 @@ def storeRun (ops : List Store.Op) : Option Store.Store × Bool :=
   let (w, rs) := Store.run {} ops
   (w.cifs.getD 0 none, rs.all (fun r => r.rc == some 0))
 
+/-! ### a pre-existing target as a history -/
+
+/-- the calls that build one loop of a pre-existing container: the scalar loop item by item (cif_container_set_value), any other
+    loop by cif_container_create_loop + one cif_loop_add_packet per packet.  `none`: not buildable this way (a category other than
+    NULL / "", a scalar loop without its packet or with several) -/
+def loopOps (path : Path) (l : Loop) : Option (List SOp) :=
+  if l.category == some [] then
+    match l.packets with
+    | [p] => if p.length == l.names.length then some ((l.names.zip p).map fun e => SOp.setVal path e.1 e.2) else none
+    | _ => none
+  else if l.category == none then some (SOp.mkLoop path l.names :: l.packets.map (SOp.addPkt path))
+  else none
+
+def loopsOps (path : Path) : List Loop → Option (List SOp)
+  | [] => some []
+  | l :: r => match loopOps path l, loopsOps path r with
+    | some a, some b => some (a ++ b)
+    | _, _ => none
+
+mutual
+  /-- the calls that build a pre-existing container below `parent` (`none` = a data block) -/
+  def containerOps (o : Opts) (parent : Option Path) : Container → Option (List SOp)
+    | .mk code fs ls =>
+      let path := (parent.getD []) ++ [o.norm code]
+      let create := match parent with
+        | none => SOp.mkBlock code false
+        | some p => SOp.mkFrame p code false
+      match loopsOps path ls, containersOps o (some path) fs with
+      | some a, some b => some (create :: a ++ b)
+      | _, _ => none
+  def containersOps (o : Opts) (parent : Option Path) : List Container → Option (List SOp)
+    | [] => some []
+    | c :: r => match containerOps o parent c, containersOps o parent r with
+      | some a, some b => some (a ++ b)
+      | _, _ => none
+end
+
+/-- a whole pre-existing CIF as the store calls that build it -/
+def cifOps (o : Opts) (cif : Cif) : Option (List SOp) := containersOps o none cif
+
 /-! ### comparison (Bool), for executed instances -/
 
 def loopBeq (a b : Loop) : Bool := a.category == b.category && a.names == b.names && a.packets == b.packets
